@@ -119,6 +119,27 @@ pub fn worker(job_json: &str) -> i32 {
         }
     };
     PROGRESS.store(u64::MAX, Ordering::Relaxed);
+    let mut out = out;
+    let spill = |v: &mut Vec<u64>, tag: &str| -> Option<String> {
+        if v.len() <= 20_000 {
+            return None;
+        }
+        let dir = format!("{}/tmp", out_dir());
+        let _ = std::fs::create_dir_all(&dir);
+        let path = format!("{}/{}-{}-{}-{}.bin", dir, std::process::id(), spec.class.replace('#', "_"), spec.from, tag);
+        let mut bytes = Vec::with_capacity(v.len() * 8);
+        for x in v.iter() {
+            bytes.extend_from_slice(&x.to_le_bytes());
+        }
+        if std::fs::write(&path, bytes).is_ok() {
+            v.clear();
+            Some(path)
+        } else {
+            None
+        }
+    };
+    out.nontrivial_file = spill(&mut out.nontrivial, "nt");
+    out.signatures_file = spill(&mut out.signatures, "sig");
     println!("{}", serde_json::to_string(&out).unwrap());
     0
 }
@@ -209,16 +230,16 @@ fn plan(prop: &str, tier: &str) -> Vec<ClassPlan> {
     let n = |q: u64, t: u64| -> u64 { (((if thorough { t } else { q }) as f64) * s).ceil() as u64 };
     match prop {
         "C07" => vec![
-            ClassPlan { class: "small", total: n(240_000, 24_000_000) },
-            ClassPlan { class: "big", total: n(32, 2_400) },
+            ClassPlan { class: "small", total: n(1_200_000, 40_000_000) },
+            ClassPlan { class: "big", total: n(48, 2_400) },
         ],
         "C08" => vec![
-            ClassPlan { class: "small", total: n(160_000, 16_000_000) },
-            ClassPlan { class: "big", total: n(24, 1_600) },
+            ClassPlan { class: "small", total: n(800_000, 30_000_000) },
+            ClassPlan { class: "big", total: n(32, 1_600) },
         ],
         "C18" => vec![
-            ClassPlan { class: "small", total: n(12_000, 1_500_000) },
-            ClassPlan { class: "big", total: n(8, 400) },
+            ClassPlan { class: "small", total: n(60_000, 3_000_000) },
+            ClassPlan { class: "big", total: n(16, 400) },
         ],
         "C17" => threadsim::plan(thorough, s),
         _ => vec![],
@@ -470,8 +491,18 @@ pub fn run(prop: &str, tier: &str) -> i32 {
 
     // ---- aggregate
     let mut agg = WorkerOut::default();
-    let mut nontrivial: HashSet<u64> = HashSet::new();
-    let mut signatures: HashSet<u64> = HashSet::new();
+    let mut nontrivial: Vec<u64> = Vec::new();
+    let mut signatures: Vec<u64> = Vec::new();
+    let slurp = |path: &Option<String>, into: &mut Vec<u64>| {
+        if let Some(p) = path {
+            if let Ok(b) = std::fs::read(p) {
+                for c in b.chunks_exact(8) {
+                    into.push(u64::from_le_bytes(c.try_into().unwrap()));
+                }
+            }
+            let _ = std::fs::remove_file(p);
+        }
+    };
     let mut failures: Vec<Failure> = Vec::new();
     let mut harness_errors: Vec<String> = Vec::new();
     let mut det: Vec<u64> = Vec::new();
@@ -483,6 +514,9 @@ pub fn run(prop: &str, tier: &str) -> i32 {
             JobResult::Ok(w) => {
                 if is_det {
                     det.push(w.range_hash);
+                    for f in [&w.nontrivial_file, &w.signatures_file].into_iter().flatten() {
+                        let _ = std::fs::remove_file(f);
+                    }
                     continue;
                 }
                 agg.scenarios += w.scenarios;
@@ -513,6 +547,8 @@ pub fn run(prop: &str, tier: &str) -> i32 {
                 failures.extend(w.failures);
                 nontrivial.extend(w.nontrivial);
                 signatures.extend(w.signatures);
+                slurp(&w.nontrivial_file, &mut nontrivial);
+                slurp(&w.signatures_file, &mut signatures);
                 if spec.class == "small" || spec.class == "conc" {
                     let mut s = w.samples;
                     s.extend(std::mem::take(&mut agg.samples));
@@ -539,6 +575,10 @@ pub fn run(prop: &str, tier: &str) -> i32 {
         }
     }
     agg.samples.truncate(3);
+    nontrivial.sort_unstable();
+    nontrivial.dedup();
+    signatures.sort_unstable();
+    signatures.dedup();
     if det.len() == 2 && det[0] != det[1] {
         harness_errors.push(format!(
             "determinism self-check failed: the same {} runs hashed {:#x} and {:#x} in two processes",
